@@ -25,6 +25,7 @@ class State:
     names = {}             # id(obj) -> name (int) for the current scenario
     keep = []              # keep named objects alive (ids must stay unique)
     frames = None          # per-thread stacks of positioned objects (threading.local)
+    shadow = {}            # name -> the position the MODEL believes the object has (updated only by emitted events)
 
 
 S = State()
@@ -128,7 +129,9 @@ class TBase(io.RawIOBase):
         for o in reversed(stack()):
             p = pos_of(o)
             if p is not None and name_of(o) is not None:      # unnamed = a temporary made during the call: look further out
-                return (name_of(o), x - p)
+                # relative to what the model holds for that object: a method may move its position several times before the
+                # one event that reports the net change
+                return (name_of(o), x - S.shadow.get(name_of(o), p))
         return None
 
     def seek(self, off, whence=0):
@@ -176,7 +179,7 @@ def _wrap_positioned(cls, method, kind):
                 for o in reversed(st):
                     p = pos_of(o)
                     if p is not None and name_of(o) is not None:
-                        derived = (name_of(o), a[0] - p)
+                        derived = (name_of(o), a[0] - S.shadow.get(name_of(o), p))
                         break
         st.append(self)
         try:
@@ -185,11 +188,14 @@ def _wrap_positioned(cls, method, kind):
             st.pop()
         after = pos_of(self)
         if name_of(self) is not None:
+            sh = S.shadow.get(name_of(self), before)
             if kind == 'seek':
                 whence = a[1] if len(a) > 1 else k.get('whence', 0)
-                emit(('pseek', name_of(self), after, derived if whence == 0 else ('self', after - before)))
-            elif after != before:
-                emit(('padv', name_of(self), after, after - before))
+                S.shadow[name_of(self)] = after
+                emit(('pseek', name_of(self), after, derived if whence == 0 else ('self', after - sh)))
+            elif after != sh:
+                S.shadow[name_of(self)] = after
+                emit(('padv', name_of(self), after, after - sh))
         return r
 
     setattr(cls, method, wrapper)
@@ -274,6 +280,7 @@ def begin_scenario():
     S.lock_count = 0
     S.names = {}
     S.keep = []
+    S.shadow = {}
 
 
 def _children(o):
@@ -317,6 +324,8 @@ def name_objects(objs):
         S.keep.append(o)
         if isinstance(o, TBase):
             continue
+        if pos_of(o) is not None:
+            S.shadow[S.names[id(o)]] = pos_of(o)
         todo += _children(o)
 
 
